@@ -22,6 +22,13 @@ if len(sys.argv) > 2:
                       "the first call after construction), error paths that return early after a partial update, operations repeated twice (idempotence), the interplay of " +
                       "two public types that share a helper (Counter/Gauge over Value, Histogram/LocalHistogram over the same core, vectors over MetricVecCore, the two " +
                       "encoders over check_metric_family, plain_model vs proto_ext), and re-use of an object after an operation that should have reset it.\n")
+        if sys.argv[2] == "avoid5":
+            avoid += ("\nThis time act as a developer making a PERFORMANCE OPTIMISATION or a CLEAN-UP that is subtly wrong: caching a computed value (label pairs, a hash, a " +
+                      "descriptor, a formatted string) that can go stale, a fast path / early exit for the 'common case' or for 'nothing changed', avoiding a clone or an " +
+                      "allocation by sharing or re-using a buffer, shrinking the scope of a lock or splitting one critical section in two, replacing a stable sort by an " +
+                      "unstable one or a full comparison by a cheaper key, replacing a collection type (HashMap / BTreeMap / Vec / HashSet, dedup), weakening an atomic " +
+                      "ordering or replacing a read-modify-write by load + store, merging two loops or two passes into one, hoisting a check out of a loop, or replacing " +
+                      "hand-written code by a derive / a std helper with slightly different semantics.\n")
         avoid += "\nOther developers already tried the following ideas; yours must be DIFFERENT in kind (another code site or another mechanism), and at least one of your two changes should involve " + \
                 "either two cooperating sites that each look fine alone or a multi-step history / particular interleaving:\n" + "\n".join(ideas) + "\n"
 for l in open('/verif/properties.jsonl'):
